@@ -49,7 +49,7 @@ func TestVerifE2PutFail(t *testing.T) {
 			opts.DataPath = t.TempDir()
 			opts.MemQueueSize = 1
 			opts.QueueScanInterval = time.Hour
-			tcpAddr, _, nsqd := mustStartNSQD(opts)
+			tcpAddr, _, nsqd := vfStartNSQD(opts)
 			defer nsqd.Exit()
 			topic := nsqd.GetTopic("vf_putfail")
 			ch := topic.GetChannel("c")
